@@ -2,6 +2,7 @@ package main
 
 import (
 	"bufio"
+	"bytes"
 	"errors"
 	"fmt"
 	"io"
@@ -436,7 +437,11 @@ func parseRESP(r *bufio.Reader) ([][]byte, error) {
 		if n < 0 {
 			return nil, nil
 		}
-		out := make([][]byte, 0, n)
+		if n > maxMultibulkLen {
+			return nil, fmt.Errorf("invalid multibulk length %q", line)
+		}
+		// Never size buffers from lengths the client merely declared.
+		out := make([][]byte, 0, min(n, 16))
 		for range n {
 			b, err := r.ReadByte()
 			if err != nil {
@@ -457,8 +462,11 @@ func parseRESP(r *bufio.Reader) ([][]byte, error) {
 				out = append(out, nil)
 				continue
 			}
-			buf := make([]byte, l)
-			if _, err := io.ReadFull(r, buf); err != nil {
+			if l > maxBulkLen {
+				return nil, fmt.Errorf("invalid bulk length %q", line)
+			}
+			buf, err := readBulk(r, l)
+			if err != nil {
 				return nil, err
 			}
 			if err := expectCRLF(r); err != nil {
@@ -485,6 +493,26 @@ func parseRESP(r *bufio.Reader) ([][]byte, error) {
 		}
 		return out, nil
 	}
+}
+
+const (
+	maxMultibulkLen = 1024 * 1024 // same limits as Redis
+	maxBulkLen      = 512 << 20
+)
+
+// readBulk reads exactly l payload bytes; memory grows with the bytes actually
+// received, not with the declared length.
+func readBulk(r *bufio.Reader, l int) ([]byte, error) {
+	if l <= 4096 {
+		buf := make([]byte, l)
+		_, err := io.ReadFull(r, buf)
+		return buf, err
+	}
+	var b bytes.Buffer
+	if _, err := io.CopyN(&b, r, int64(l)); err != nil {
+		return nil, err
+	}
+	return b.Bytes(), nil
 }
 
 func readLine(r *bufio.Reader) (string, error) {
